@@ -14,7 +14,12 @@ CONF = dict(
  'spin barrier call MeasureClockOffsets on one collector at the same virtual instant with no synchronisation between them (5000 trials per quick run, varying '
  'per-caller delays and yielding). Sync iterations: the real sync.Run driven for 1..3 iterations (fake system clock whose Sleep ends the goroutine, recording adjuster, '
  '0..4 scripted reference clocks and 0..4 scripted peers per iteration completing before / at / after SyncTimeout, beyond SyncInterval, only on cancellation or '
- 'never); observed per iteration: start, hand-over of the correction (adj.Do), Sleep call and argument, invocation and return of every source. Non-trivial: a round with >= 2 clocks of which at least one is not finished by the deadline (or finishes exactly at it) '
+ 'never); observed per iteration: start, hand-over of the correction (adj.Do), Sleep call and argument, invocation and return of every source. Also: collectMeasurements itself through the hook core/client.VerifCollectMeasurements with the '
+ 'harness\'s own producers (kind collect.raw: the returned count j is observed); rounds of 34..100 clocks with more than 32 of them blocked; successful results '
+ 'with the zero time and/or a zero offset; clocks failing with context.DeadlineExceeded, ctx.Err() and wrapped errors; SyncTimeout 0 and SyncTimeout = '
+ 'SyncInterval/2; the correction handed to adj.Do compared with the fault-tolerant midpoints of the in-time successes (incl. Run\'s local clock) whenever no '
+ 'source completes exactly at the deadline; the slice is copied at the return instant and must not change afterwards.'
+ ' Non-trivial: a round with >= 2 clocks of which at least one is not finished by the deadline (or finishes exactly at it) '
  'and at least one finishes by it; a history in which a call is made while another is in progress; a race with at least two callers whose rounds take time; a sync '
  'iteration with >= 2 sources of which at least one is not finished by SyncTimeout; '
  'distinct = distinct (kind, input)'),
@@ -24,6 +29,10 @@ CONF = dict(
  'one iteration of sync.Run = two instances of the collector model (reference clocks; peers plus the local clock Run appends) started at the same instant under '
  'the same timeout; Run hands the correction over at the later of the two returns (the channel hand-offs inside Run take no virtual time)',
  'a call starting at the very instant another call on the same collector returns may be refused or let in (both orders of the two events are schedules)',
+ 'a call of zero duration made at the same instant as another call cannot be told from one made just before it: the order-free oracle accepts it (a zero-duration '
+ 'call strictly inside another call\'s interval is rejected)',
+ 'hook: core/client/hooks_verif.go VerifCollectMeasurements (build tag verif, /repo 58e4cb9) exports collectMeasurements unchanged',
+ 'correction values: Model/Ftm.v (the C02 model of FaultTolerantMidpoint/Midpoint) is reused; the fake clock reports a drift so large that nothing is clamped, cutoff 0',
  'concurrent callers reach the compare-and-swap in some total order (linearizability of sync/atomic); the observation of a race case must be what the guard '
  'model does for one of the orders, and must satisfy an oracle that does not depend on the order',
  "the model's deadline is the instant at which the context's Done channel closes (deadline or explicit cancel, whichever is first)",
@@ -44,10 +53,14 @@ CONF = dict(
  'one is in progress and is released on return. The model is tied to the Go code through observable outcomes only (not through its internal states).'),
     level_note=('Trusted: Coq kernel, the hand-written LTS (validated every run by reproducing what the real code did under synctest), extraction, harness, synctest. The tie is '
  'through outcomes (return time, slice, goroutine counts, panics), as DESIGN section 6 states; the guard clause is proved for all call/return histories and the timed '
- 'guard oracle is proved to accept every timed history of the guard model. No axioms (Closed under the global context).'),
+ 'guard oracle is proved to accept every timed history of the guard model. Not modelled: shared state between successive rounds on one collector ("not silently interleaved" beyond the '
+ 'guard): a change that lets rounds share a channel or slice (seeded C16-m4) has no model-level counterpart; it is caught only because every round of a history is '
+ 'matched against its own single-round model. The release instant of the guard is proved on the composed guard+collector system (C16_guard_released_at_return). '
+ 'A case in which a call neither returns nor blocks for 120 s of wall-clock time is reported as a failing case (class 6) and ends the harness run. '
+ 'No axioms (Closed under the global context).'),
     explanation=('collectMeasurements/MeasureClockOffsets as a transition system; all schedules covered by invariants; real code run under virtual time and matched against '
  'a model schedule plus the property oracle'),
     timeout_quick=600,
     timeout_thorough=3000,
-    min_cases={'collect': 2102, 'history': 1050, 'race': 1530, 'sync.round': 751},
+    min_cases={'collect': 2102, 'collect.raw': 902, 'history': 1050, 'race': 1530, 'sync.round': 751},
 )
